@@ -75,7 +75,10 @@ def write_market(dirpath, m):
                 if r.get("ltp") is not None:
                     x["ltp"] = r["ltp"]
                 rc.append(x)
-            line = {"op": "mcm", "clk": str(i), "pt": u["pt"], "mc": [{"id": m["id"], "img": True, "marketDefinition": md(m, u), "rc": rc}]}
+            mc = {"id": m["id"], "marketDefinition": md(m, u), "rc": rc}
+            if m.get("img", True):
+                mc["img"] = True       # every line a full image (ladders replaced); img=False: historic-file style deltas
+            line = {"op": "mcm", "clk": str(i), "pt": u["pt"], "mc": [mc]}
             fh.write(json.dumps(line) + "\n")
     return path
 
@@ -192,6 +195,10 @@ def run_scenario(sc, observe="all"):
                             txn.__exit__(None, None, None); txn = None; res = "ok"
                         elif a[0] == "raise":
                             raise ValueError("scripted error")
+                        elif a[0] == "real_time_raise":
+                            # documented wall-clock window (docs/advanced.md); the body fails
+                            with fw.simulated_datetime.real_time():
+                                raise ValueError("scripted error inside real_time()")
                         elif a[0] == "place":
                             _, oid, sel, side, t, opt = a
                             opt = opt or {}
